@@ -40,7 +40,7 @@ theorem cycle_sim (app : App) (hp : Prog app) (a0 : Arch) (s s' : State) (a : Ar
 /-- what a finished run has to do with the unpipelined run from `a0` -/
 def RunPost (app : App) (a0 : Arch) (r : Result) : Prop :=
   match r.halt with
-  | some .offEnd => ∃ k a, Proofs.Mvp4.seqIter app k a0 = some a ∧ (NoJmp app → ∃ c, stepArch Proofs.Mvp4.dc app a = .halt .offEnd c) ∧
+  | some .offEnd => ∃ k a, Proofs.Mvp4.seqIter app k a0 = some a ∧ (∃ c, stepArch Proofs.Mvp4.dc app a = .halt .offEnd c) ∧
       r.final.ctx.Registers = a.ctx.Registers ∧ r.final.ctx.Memory = a.ctx.Memory
   | some .ret => ∃ k a, Proofs.Mvp4.seqIter app k a0 = some a ∧ (∃ c, stepArch Proofs.Mvp4.dc app a = .halt .ret c) ∧
       r.final.ctx.Registers = a.ctx.Registers ∧ r.final.ctx.Memory = a.ctx.Memory
@@ -139,7 +139,7 @@ theorem mvp60_j_runpost (app : App) (hp : ProgJ app) (ctx : Model.Context) (hc :
 theorem mvp60_j_refines_mvp1 (app : App) (hp : ProgJ app) (ctx : Model.Context) (hc : CtxOk ctx) (K fuel : Nat) (hk : Halt)
     (hsid : ctx.sequenceID = 0 ∨ NoCond app)
     (hT : ∀ k a, Proofs.Mvp4.seqIter app k ⟨ctx, 0#32⟩ = some a → TgtOk app a)
-    (hh : (run app ctx K K fuel).halt = some hk) (hnp : ∀ w, hk ≠ .panic w) (hoff : hk = .offEnd → NoJmp app) :
+    (hh : (run app ctx K K fuel).halt = some hk) (hnp : ∀ w, hk ≠ .panic w) :
     ∃ n, (runMvp1 app ⟨ctx, 0#32⟩ n).halt = some hk ∧
       (hk ≠ .err →
         (run app ctx K K fuel).final.ctx.Registers = (runMvp1 app ⟨ctx, 0#32⟩ n).final.ctx.Registers ∧
@@ -153,8 +153,7 @@ theorem mvp60_j_refines_mvp1 (app : App) (hp : ProgJ app) (ctx : Model.Context) 
     obtain ⟨h1, h2⟩ := Proofs.Mvp4.run_halts mvp1Fetch app hit hs 0
     exact ⟨k + (0 + 1), h1, fun _ => by unfold runMvp1; rw [h2]; exact ⟨hf1, hf2⟩⟩
   | offEnd =>
-    obtain ⟨k, a, hit, hoe, hf1, hf2⟩ := hpost
-    obtain ⟨c, hs⟩ := hoe (hoff rfl)
+    obtain ⟨k, a, hit, ⟨c, hs⟩, hf1, hf2⟩ := hpost
     obtain ⟨h1, h2⟩ := Proofs.Mvp4.run_halts mvp1Fetch app hit hs 0
     exact ⟨k + (0 + 1), h1, fun _ => by unfold runMvp1; rw [h2]; exact ⟨hf1, hf2⟩⟩
   | err =>
@@ -173,7 +172,6 @@ theorem mvp60_g_refines_mvp1_wide (app : App) (hp : ProgG app) (ctx : Model.Cont
         (run app ctx K K fuel).final.ctx.Registers = (runMvp1 app ⟨ctx, 0#32⟩ n).final.ctx.Registers ∧
         (run app ctx K K fuel).final.ctx.Memory = (runMvp1 app ⟨ctx, 0#32⟩ n).final.ctx.Memory) :=
   mvp60_j_refines_mvp1 app hp.toJ ctx hc K fuel hk hsid (fun _ a _ => tgtOk_of_proved app hp.cls a) hh hnp
-    (fun _ => noJmp_of_proved app hp.cls)
 
 /-- **MVP-6.0 with at most one execute unit refines the unpipelined machine on the proved class** (register-only programs
 with conditional branches and `ret`, `Model.Mvp60.ProvedClass`): every installable initial context with `sequenceID = 0`
